@@ -234,6 +234,21 @@ def cli_format_case(acc, rng, prog, files, opts, probe_fmt):
     """`mos format` rewrites each file with exactly the library's text; nothing is touched when any file has a parse error."""
     toml = options_toml(opts)
     acc.count("cli.format_runs")
+    # the imported files get other names now and then: another extension, the stem of the main file, a subdirectory
+    # (the formatter's text does not depend on the name of a file)
+    others = sorted(n for n in files if n != "main.asm")
+    if others and rng.random() < 0.5:
+        new_names = {}
+        # (names of the same length as the generated ones, so that the formatted text stays what the library produced)
+        pool = ["main.inc", "main.mac", "gfx0.inc", "gfx0.asm", "lib0.inc"]
+        rng.shuffle(pool)
+        for n_, nn in zip(others, pool):
+            if len(n_) == len(nn):
+                new_names[n_] = nn
+        ren = lambda t: __import__("functools").reduce(lambda acc_, kv: acc_.replace('"%s"' % kv[0], '"%s"' % kv[1]), new_names.items(), t)
+        files = {new_names.get(n_, n_): ren(t) for n_, t in files.items()}
+        probe_fmt = {new_names.get(n_, n_): ren(t) for n_, t in probe_fmt.items()}
+        acc.count("cli.format_runs_with_renamed_files")
     with TempProject(files, toml) as tp:
         r = run_mos(["--no-color", "-e", "Short", "format"], tp.dir)
         if r["rc"] != 0:
